@@ -194,6 +194,9 @@ def _np_like(kind):
 def _np_array(ex, st, args, kw, node):
     """np.array(x): a *copy* (fresh storage) with the same content."""
     x = args[0]
+    dt_ = kw.get("dtype")
+    if dt_ is not None and not (isinstance(dt_, FuncV) and dt_.name in ("float", "np.double")):
+        raise Undecided("np.array dtype")
     if isinstance(x, ARef):
         d = ex.arr(st, x)
         return ex.alloc_arr(st, d.shape, d.data, d.elem, "fresh", tag="copy")
@@ -576,7 +579,7 @@ NP = ModV("np", {
     "logical_and": FuncV(_np_logical_and, "np.logical_and"), "arange": FuncV(_np_arange, "np.arange"),
     "sum": _reduce(SUM), "mean": _reduce(MEAN), "max": _np_ext(False), "min": _np_ext(True),
     "argmin": _np_argext(ARGMIN), "argmax": _np_argext(ARGMAX),
-    "nan": None,
+    "nan": None, "double": FuncV(_float, "np.double"),
 })
 
 BUILTINS = {
